@@ -174,6 +174,10 @@ func RunLB(s *sim.Sim, prop string, uniq string) *LB {
 				}
 			}
 			h := cluster.NewSimpleHost(hc, info)
+			// load figures the least-request / least-connection / EWMA policies look at (an unhealthy host
+			// is typically the idle one)
+			setCounter(h.HostStats().UpstreamConnectionActive, int64(ch.Pick("work", "activeconns", 5)))
+			setCounter(h.HostStats().UpstreamRequestActive, int64(ch.Pick("work", "activereqs", 5)))
 			hs = append(hs, h)
 			addrs = append(addrs, a)
 		}
@@ -334,6 +338,14 @@ func RunLB(s *sim.Sim, prop string, uniq string) *LB {
 	s.Run(func() bool { w.mu.Lock(); defer w.mu.Unlock(); return w.done == w.nTasks })
 	w.check()
 	return w
+}
+
+// setCounter sets a go-metrics counter (shared per address) to v.
+func setCounter(c interface {
+	Count() int64
+	Inc(int64)
+}, v int64) {
+	c.Inc(v - c.Count())
 }
 
 func sortStrings(a []string) {
